@@ -181,67 +181,62 @@ theorem scan_stop_delim (r : Bytes) (hr : Delim r) (d : Nat) (dot : Bool) :
 
 /-! ### reading the text of an integer -/
 
-
-theorem parseIntStr_pos (m : Nat) (suf : Bytes) (hs : suf = [] ∨ suf = [76]) (hm : m < two64) (h1 : 1 ≤ m) :
-    parseIntStr (natDec m ++ suf) =
-      if suf = [] then (wrapU 64 (wrapS 32 m)).toNat else m := by
-  obtain ⟨c, t, hD, hc, hnz⟩ := natDec_head m hm
-  have hcf := digit_char_facts hc
-  unfold parseIntStr
-  have e1 : skipWs (natDec m ++ suf) = natDec m ++ suf := by
-    rw [hD]; exact skipWs_cons_nonws c _ hcf.1
-  simp only [e1]
-  have e2 : peek (natDec m ++ suf) = c := by rw [hD]; rfl
-  simp only [e2, hcf.2.1, hcf.2.2.1, Bool.false_or, decide_false, Bool.or_self]
-  have hne : ¬ c = 48 := hnz h1
-  simp only [Bool.false_eq_true, if_false, e2, hne, readDec_natDec m suf hm]
-  rcases hs with hs | hs <;> subst hs
-  · simp [readDec, parseIntStr.suffix]
-  · have : readDec [76] m = (m, [76]) := by simp [readDec, isDigit]
-    simp [this, parseIntStr.suffix, upper]
-
-theorem parseIntStr_neg (m : Nat) (suf : Bytes) (hs : suf = [] ∨ suf = [76]) (hm : m < two64) (h1 : 1 ≤ m) :
-    parseIntStr (cMinus :: (natDec m ++ suf)) =
-      if suf = [] then (wrapU 64 (wrapS 32 (((two64 - m) % two64 : Nat) : Int))).toNat else (two64 - m) % two64 := by
-  obtain ⟨c, t, hD, hc, hnz⟩ := natDec_head m hm
-  have hcf := digit_char_facts hc
-  unfold parseIntStr
-  have e1 : skipWs (cMinus :: (natDec m ++ suf)) = cMinus :: (natDec m ++ suf) := skipWs_cons_nonws _ _ (by decide)
-  simp only [e1]
-  have e2 : peek (natDec m ++ suf) = c := by rw [hD]; rfl
-  have hne : ¬ c = 48 := hnz h1
-  have p0 : peek (cMinus :: (natDec m ++ suf)) = cMinus := rfl
-  simp only [p0, List.drop_succ_cons, List.drop_zero, show (cMinus = cPlus) = False by decide,
-    decide_true, decide_false, Bool.false_or, if_true, beq_self_eq_true]
-  simp only [e2, hne, if_false, readDec_natDec m suf hm]
-  rcases hs with hs | hs <;> subst hs
-  · simp [readDec, parseIntStr.suffix]
-  · have : readDec [76] m = (m, [76]) := by simp [readDec, isDigit]
-    simp [this, parseIntStr.suffix, upper]
-
 theorem take_prefix (a b : Bytes) : (a ++ b).take ((a ++ b).length - b.length) = a := by
   simp
 
-theorem loadDecimal_int (expLoad : Bytes → Prim × Bytes) (sign : Bytes) (m : Nat) (suf rest : Bytes)
+/-- the value and type primitive::load gives the digits of `m` (no `u`, `longs` L's, sign `neg`) -/
+def reloaded (m : Nat) (longs : Nat) (neg : Bool) : PType × Int := signedLiteral m true false longs neg
+
+theorem intLiteral_zero (longs : Nat) : intLiteral 0 false false longs = intLiteral 0 true false longs := by
+  unfold intLiteral
+  by_cases h : longs = 0 <;> simp [h]
+
+theorem loadDecimal_int (expLoad : Bytes → Prim × Bytes) (sign : Bytes) (m : Nat) (suf rest : Bytes) (neg : Bool)
     (hs : suf = [] ∨ suf = [76]) (hr : Delim rest) (hm : m < two64) :
-    loadDecimal expLoad (sign ++ (natDec m ++ suf) ++ rest) (natDec m ++ suf ++ rest) =
-      (⟨sufType (if suf = [] then 0 else 1) false,
-        (sufType (if suf = [] then 0 else 1) false).wrap (parseIntStr (sign ++ (natDec m ++ suf))),
+    loadDecimal expLoad (sign ++ (natDec m ++ suf) ++ rest) (natDec m ++ suf ++ rest) neg =
+      (⟨(reloaded m (if suf = [] then 0 else 1) neg).1, (reloaded m (if suf = [] then 0 else 1) neg).2,
         sign ++ (natDec m ++ suf)⟩, rest) := by
-  obtain ⟨c, t, hD, hc, _⟩ := natDec_head m hm
+  obtain ⟨c, t, hD, hc, hnz⟩ := natDec_head m hm
   have hlen : (natDec m).length ≠ 0 := by rw [hD]; simp
+  have hdig : (natDec m ++ (suf ++ rest)).take ((natDec m ++ (suf ++ rest)).length - (suf ++ rest).length) = natDec m :=
+    take_prefix _ _
+  have hpk : peek (natDec m ++ (suf ++ rest)) = c := by rw [hD]; rfl
+  have hrd : (readDec (natDec m) 0).1 = m := by
+    have := readDec_natDec m [] hm
+    simp only [List.append_nil] at this
+    rw [this]; rfl
+  -- the value read from the digit text, and its type
+  have hval : (if (peek (natDec m ++ (suf ++ rest)) != 48) = true then (readDec (natDec m) 0).1 else parseBinaryStr (natDec m)) = m
+      ∧ ∀ l, intLiteral m (peek (natDec m ++ (suf ++ rest)) != 48) false l = intLiteral m true false l := by
+    rw [hpk, hrd]
+    by_cases h0 : m = 0
+    · subst h0
+      rw [natDec_zero] at hD
+      injection hD with hc0 _
+      subst hc0
+      refine ⟨by decide, fun l => ?_⟩
+      simpa using intLiteral_zero l
+    · have : c ≠ 48 := hnz (by omega)
+      have hb : (c != 48) = true := by simp [this]
+      rw [hb]
+      exact ⟨by simp, fun _ => rfl⟩
   unfold loadDecimal
   rw [List.append_assoc (natDec m), scan_digits (natDec m) (suf ++ rest) (natDec_allDigits m)]
   rcases hs with hs | hs <;> subst hs
   · simp only [List.nil_append, scan_stop_delim rest hr, Nat.zero_add, hlen, if_false,
       sufLoop_delim false rest hr]
-    simp only [List.append_nil, take_prefix, Bool.or_self, Bool.false_eq_true, if_false, if_true]
+    simp only [List.nil_append] at hdig hval
+    simp only [List.append_nil, take_prefix, Bool.or_self, Bool.false_eq_true, if_false, if_true, hdig]
+    unfold reloaded signedLiteral
+    simp only [hval.1, hval.2]
   · have e1 : scanDigitsDots ([76] ++ rest) (0 + (natDec m).length) false = ((natDec m).length, false, [76] ++ rest) := by
       simp [scanDigitsDots, isDigit, cDot]
     have e2 : sufLoop false ([76] ++ rest) 0 false false = (1, false, false, .plain, rest) := by
       simp [sufLoop, upper, sufLoop_delim false rest hr]
     simp only [e1, hlen, if_false, e2]
-    simp only [take_prefix, Bool.or_self, Bool.false_eq_true, if_false, List.cons_ne_nil]
+    simp only [take_prefix, Bool.or_self, Bool.false_eq_true, if_false, List.cons_ne_nil, hdig]
+    unfold reloaded signedLiteral
+    simp only [hval.1, hval.2]
 
 theorem take4_ne (x : UInt8) (l : Bytes) (h : x ≠ 116) : ¬ (x :: l).take 4 = sTrue := by
   intro e; simp [sTrue] at e; exact h e.1
@@ -263,8 +258,7 @@ theorem c1_not_bx (suf rest : Bytes) (hs : suf = [] ∨ suf = [76]) (hr : Delim 
 theorem loadPrim_int (fuel : Nat) (neg : Bool) (m : Nat) (suf rest : Bytes)
     (hs : suf = [] ∨ suf = [76]) (hr : Delim rest) (hm : m < two64) (hneg : neg = true → 1 ≤ m) :
     loadPrim (fuel + 1) ((if neg then [cMinus] else []) ++ (natDec m ++ suf) ++ rest) =
-      (⟨sufType (if suf = [] then 0 else 1) false,
-        (sufType (if suf = [] then 0 else 1) false).wrap (parseIntStr ((if neg then [cMinus] else []) ++ (natDec m ++ suf))),
+      (⟨(reloaded m (if suf = [] then 0 else 1) neg).1, (reloaded m (if suf = [] then 0 else 1) neg).2,
         (if neg then [cMinus] else []) ++ (natDec m ++ suf)⟩, rest) := by
   obtain ⟨c, t, hD, hc, hnz⟩ := natDec_head m hm
   have hcf := digit_char_facts hc
@@ -291,7 +285,7 @@ theorem loadPrim_int (fuel : Nat) (neg : Bool) (m : Nat) (suf rest : Bytes)
       rw [this]
       simp [hcf.2.1, hcf.2.2.1]
     simp only [h4, h5, if_false, hsp, hfmt, Bool.false_eq_true]
-    have := loadDecimal_int (loadPrim fuel) [] m suf rest hs hr hm
+    have := loadDecimal_int (loadPrim fuel) [] m suf rest false hs hr hm
     simp only [List.nil_append] at this
     exact this
   | true =>
@@ -309,7 +303,7 @@ theorem loadPrim_int (fuel : Nat) (neg : Bool) (m : Nat) (suf rest : Bytes)
       simp only [List.drop_succ_cons, List.drop_zero, hsk]
       simp [cMinus, cPlus]
     simp only [h4, h5, if_false, hsp, hfmt, Bool.false_eq_true]
-    have := loadDecimal_int (loadPrim fuel) [cMinus] m suf rest hs hr hm
+    have := loadDecimal_int (loadPrim fuel) [cMinus] m suf rest true hs hr hm
     simp only [List.cons_append, List.nil_append] at this
     exact this
 
@@ -329,14 +323,8 @@ theorem ws64_idem (x : Int) : wrapS 64 (wrapS 64 x) = wrapS 64 x := by
 theorem wu64_ws64 (x : Int) : wrapU 64 (wrapS 64 x) = wrapU 64 x := by
   simp only [wrapS, wrapU, p63, p64]; omega
 
-theorem parse32_pos (m : Nat) : wrapS 32 ((wrapU 64 (wrapS 32 (m : Int))).toNat : Int) = wrapS 32 m := by
-  simp only [wrapS, wrapU, p31, p32, p64]; omega
-theorem parse32_neg (m : Nat) (h : m < two64) (h1 : 1 ≤ m) :
-    wrapS 32 ((wrapU 64 (wrapS 32 (((two64 - m) % two64 : Nat) : Int))).toNat : Int) = wrapS 32 (-(m : Int)) := by
-  simp only [wrapS, wrapU, p31, p32, p64, two64] at *; omega
-theorem parse64_neg (m : Nat) (h : m < two64) (h1 : 1 ≤ m) :
-    wrapS 64 (((two64 - m) % two64 : Nat) : Int) = wrapS 64 (-(m : Int)) := by
-  simp only [wrapS, p63, p64, two64] at *; omega
+theorem wu64_idem (x : Int) : wrapU 64 (wrapU 64 x) = wrapU 64 x := by
+  simp only [wrapU, p64]; omega
 
 /-! ### the number lemma -/
 
@@ -373,64 +361,72 @@ theorem toStr_isInt {p : Prim} (h : p.IsInt) :
      · have : p.val.toNat = p.val.natAbs := by omega
        simp [hv, this])
 
-/-- the type and value primitive::load gives the text of an integer, and the comparison of
-    json::operator== -/
-theorem primEq_reload (p : Prim) (h : p.IsInt) (T : Bytes) :
-    let ty' := sufType (if p.ty.isLong then 1 else 0) false
-    primEq p ⟨ty', ty'.wrap p.val, T⟩ = true := by
-  obtain ⟨_, _, ht⟩ := h
-  rcases ht with ht | ht | ht | ht | ht | ht | ht | ht <;>
-    simp [primEq, ht, PType.isLong, sufType, maxTy, PType.rank, Prim.toInt, PType.wrap,
-      ws32_idem, wu32_ws32, ws64_idem, wu64_ws64]
+theorem primEq_of_val_eq (p : Prim)
+    (ht : p.ty = .i8 ∨ p.ty = .u8 ∨ p.ty = .i16 ∨ p.ty = .u16 ∨ p.ty = .i32 ∨ p.ty = .u32 ∨ p.ty = .i64 ∨ p.ty = .u64)
+    (ty' : PType) (hty : ty' = .i32 ∨ ty' = .i64 ∨ ty' = .u64) (T : Bytes) : primEq p ⟨ty', p.val, T⟩ = true := by
+  rcases ht with ht | ht | ht | ht | ht | ht | ht | ht <;> rcases hty with hty | hty | hty <;>
+    simp [primEq, maxTy, PType.rank, Prim.toInt, ht, hty]
 
-theorem parseInt_value (p : Prim) (h : p.IsInt) :
-    let ty' := sufType (if p.ty.isLong then 1 else 0) false
-    ty'.wrap (parseIntStr ((if p.val < 0 then [cMinus] else []) ++ (natDec p.val.natAbs ++ (if p.ty.isLong then [76] else []))))
-      = ty'.wrap p.val := by
-  have hm := isInt_natAbs_lt h
-  intro ty'
+/-- decimal literal without `u`: int if it fits (and there is no `l`), else long, else unsigned long -/
+theorem intLiteral_dec (m longs : Nat) :
+    intLiteral m true false longs =
+      if longs = 0 ∧ m ≤ 2147483647 then .i32 else if m ≤ 9223372036854775807 then .i64 else .u64 := by
+  unfold intLiteral
+  by_cases h1 : longs = 0 <;> by_cases h2 : m ≤ 2147483647 <;> by_cases h3 : m ≤ 9223372036854775807 <;>
+    simp [h1, h2, h3]
+
+theorem intLiteral_cases (m longs : Nat) :
+    intLiteral m true false longs = .i32 ∨ intLiteral m true false longs = .i64 ∨ intLiteral m true false longs = .u64 := by
+  rw [intLiteral_dec]
+  split
+  · exact Or.inl rfl
+  · split
+    · exact Or.inr (Or.inl rfl)
+    · exact Or.inr (Or.inr rfl)
+
+/-- json::operator== accepts the re-read number: it has the same value (a 64-bit type for values that
+    do not fit `int`), except that the most negative int64 comes back as the uint64 with the same bits -/
+theorem primEq_reload (p : Prim) (h : p.IsInt) (T : Bytes) :
+    primEq p ⟨(reloaded p.val.natAbs (if p.ty.isLong then 1 else 0) (decide (p.val < 0))).1,
+      (reloaded p.val.natAbs (if p.ty.isLong then 1 else 0) (decide (p.val < 0))).2, T⟩ = true := by
+  obtain ⟨_, hr, ht⟩ := h
+  unfold Prim.InRange at hr
+  have hcases := intLiteral_cases p.val.natAbs (if p.ty.isLong then 1 else 0)
+  unfold reloaded signedLiteral
+  simp only []
   by_cases hv : p.val < 0
-  · have h1 : 1 ≤ p.val.natAbs := by omega
-    have hval : p.val = -(p.val.natAbs : Int) := by omega
-    simp only [hv, if_true, List.cons_append, List.nil_append]
-    cases hl : p.ty.isLong
-    · have := parseIntStr_neg p.val.natAbs [] (Or.inl rfl) hm h1
-      simp only [List.append_nil, if_true] at this
-      have e : ty' = .i32 := by simp [ty', hl, sufType]
-      simp only [e, Bool.false_eq_true, if_false, List.append_nil, this]
-      show wrapS 32 _ = wrapS 32 _
-      rw [parse32_neg _ hm h1, ← hval]
-    · have := parseIntStr_neg p.val.natAbs [76] (Or.inr rfl) hm h1
-      simp only [List.cons_ne_nil, if_false] at this
-      have e : ty' = .i64 := by simp [ty', hl, sufType]
-      simp only [e, if_true, this]
-      show wrapS 64 _ = wrapS 64 _
-      rw [parse64_neg _ hm h1, ← hval]
-  · have hval : p.val = (p.val.natAbs : Int) := by omega
-    simp only [hv, if_false, List.nil_append]
-    by_cases h0 : p.val.natAbs = 0
-    · have hz : p.val = 0 := by omega
-      rw [h0, natDec_zero]
-      cases hl : p.ty.isLong
-      · simp only [ty', hl, Bool.false_eq_true, if_false, List.append_nil, hz]
-        have : parseIntStr [48] = 0 := by decide
-        rw [this]; rfl
-      · simp only [ty', hl, if_true, hz]
-        have : parseIntStr ([48] ++ [76]) = 0 := by decide
-        rw [this]; rfl
-    · have h1 : 1 ≤ p.val.natAbs := by omega
-      cases hl : p.ty.isLong
-      · have := parseIntStr_pos p.val.natAbs [] (Or.inl rfl) hm h1
-        simp only [List.append_nil, if_true] at this
-        have e : ty' = .i32 := by simp [ty', hl, sufType]
-        simp only [e, Bool.false_eq_true, if_false, List.append_nil, this]
-        show wrapS 32 _ = wrapS 32 _
-        rw [parse32_pos, ← hval]
-      · have := parseIntStr_pos p.val.natAbs [76] (Or.inr rfl) hm h1
-        simp only [List.cons_ne_nil, if_false] at this
-        have e : ty' = .i64 := by simp [ty', hl, sufType]
-        simp only [e, if_true, this]
-        rw [← hval]
+  · have hval : -(p.val.natAbs : Int) = p.val := by omega
+    simp only [hv, decide_true, if_true, hval]
+    by_cases hmin : p.val = -9223372036854775808
+    · -- only an int64 can hold this value; it is re-read as uint64 2^63
+      have hty : p.ty = .i64 := by
+        rcases ht with ht | ht | ht | ht | ht | ht | ht | ht <;> rw [ht] at hr <;>
+          simp only [PType.wrap, wrapS, wrapU, p7, p8, p15, p16, p31, p32, p63, p64] at hr <;>
+          first | exact ht | omega
+      have hna : p.val.natAbs = 9223372036854775808 := by omega
+      have hlit : intLiteral p.val.natAbs true false (if p.ty.isLong then 1 else 0) = .u64 := by
+        rw [intLiteral_dec, hna]; simp
+      rw [hlit, hmin]
+      have hp : p = ⟨.i64, -9223372036854775808, p.src⟩ := by
+        cases p; simp_all
+      rw [hp]
+      simp [primEq, maxTy, PType.rank, Prim.toInt, PType.wrap, wrapU, p64]
+    · -- otherwise the negated literal is in the range of its type: the value is unchanged
+      have hb : p.val.natAbs ≤ 9223372036854775807 := by
+        rcases ht with ht | ht | ht | ht | ht | ht | ht | ht <;> rw [ht] at hr <;>
+          simp only [PType.wrap, wrapS, wrapU, p7, p8, p15, p16, p31, p32, p63, p64] at hr <;> omega
+      have hx : (intLiteral p.val.natAbs true false (if p.ty.isLong then 1 else 0)).wrap p.val = p.val := by
+        rw [intLiteral_dec]
+        by_cases h1 : (if p.ty.isLong then 1 else 0) = 0 ∧ p.val.natAbs ≤ 2147483647
+        · rw [if_pos h1]
+          simp only [PType.wrap, wrapS, p31, p32]; omega
+        · rw [if_neg h1, if_pos hb]
+          simp only [PType.wrap, wrapS, p63, p64]; omega
+      rw [hx]
+      exact primEq_of_val_eq p ht _ hcases T
+  · have hval : (p.val.natAbs : Int) = p.val := by omega
+    simp only [hv, decide_false, Bool.false_eq_true, if_false, hval]
+    exact primEq_of_val_eq p ht _ hcases T
 
 /-- C24 number lemma: reading the printed text of an integer primitive, followed by a delimiter,
     yields a primitive that json::operator== accepts as equal, and stops at the delimiter -/
@@ -442,15 +438,12 @@ theorem loadPrim_toStr (fuel : Nat) (p : Prim) (h : p.IsInt) (rest : Bytes) (hr 
     cases p.ty.isLong <;> simp
   have hneg : decide (p.val < 0) = true → 1 ≤ p.val.natAbs := by intro hh; have := of_decide_eq_true hh; omega
   have hl := loadPrim_int fuel (decide (p.val < 0)) p.val.natAbs _ rest hsuf hr hm hneg
-  simp only [decide_eq_true_eq] at hl
+  have hsel : (if (if p.ty.isLong then [76] else ([] : Bytes)) = [] then 0 else 1) = (if p.ty.isLong then 1 else 0) := by
+    cases p.ty.isLong <;> simp
+  simp only [decide_eq_true_eq, hsel] at hl
   refine ⟨_, by rw [hT]; exact hl, ?_, ?_⟩
-  · have hv := parseInt_value p h
-    have hsel : (if (if p.ty.isLong then [76] else ([] : Bytes)) = [] then 0 else 1) = (if p.ty.isLong then 1 else 0) := by
-      cases p.ty.isLong <;> simp
-    simp only [hsel]
-    simp only [] at hv
-    rw [hv]
-    exact primEq_reload p h _
+  · have := primEq_reload p h ((if p.val < 0 then [cMinus] else []) ++ (natDec p.val.natAbs ++ if p.ty.isLong then [76] else []))
+    simpa using this
   · simp only [hT]
 
 end Occa.Json
